@@ -101,6 +101,7 @@ const (
 	szSmall = iota // a handful of elements
 	szEdge         // CompactSize boundaries 252/253/254 and friends
 	szMax          // the per-message maximum (or maximum-1)
+	szTiny         // only used for scripts of transactions with tens of thousands of inputs / outputs
 )
 
 func pickSize(r *mon.Rand) int {
@@ -311,12 +312,15 @@ func randTx(r *mon.Rand, sh txShape) *reftx.Tx {
 		}
 	case szMax:
 		scriptSz = szEdge
-		if sh.heavy {
-			switch r.Intn(3) {
-			case 0:
-				nin = 0x10000 + r.Intn(2) - 1 // CompactSize 0xfd/0xfe boundary
-			case 1:
-				nout = 0x10000 + r.Intn(2) - 1
+		if sh.heavy && r.Chance(1, 25) {
+			// the CompactSize 0xfd/0xfe boundary of the element counts; scripts are kept tiny and the
+			// witness empty so that the transaction stays below the 4,000,000-byte message limit
+			scriptSz = szTiny
+			sh.witness = 0
+			if r.Bool() {
+				nin = 0x10000 + r.Intn(3) - 1
+			} else {
+				nout = 0x10000 + r.Intn(3) - 1
 			}
 		}
 	}
@@ -355,6 +359,9 @@ func hasWit(t *reftx.Tx) bool { return t.HasWitness() }
 // scriptBytes picks script / witness item contents; population is the number of sibling
 // scripts, used to keep the total size of edge-shaped transactions reasonable.
 func scriptBytes(r *mon.Rand, sz int, population int) []byte {
+	if sz == szTiny {
+		return r.Bytes(r.Intn(9))
+	}
 	if sz == szEdge && population <= 16 {
 		n := []int{0, 1, 75, 252, 253, 254, 520, 0xffff, 0x10000, 0x10001, 10000}[r.Intn(11)]
 		b := r.Bytes(n)
